@@ -1,5 +1,7 @@
 package zzverif
 
+import "verifsim/simrt"
+
 // Concurrent halves of properties whose first engine is sequential. This file sorts after
 // props_seq.go so that its init runs once the sequential specs exist.
 func init() {
@@ -252,4 +254,61 @@ func init() {
 			OpW: w(defaultOpW, map[string]int{"setexpires": 10, "advance": 14, "cleanup": 6, "wsize": 4, "esize": 4, "hottest": 3, "coldest": 3, "all": 3})},
 		nontrivial: func(o *SeqOutcome) bool { return o.Probes["final-structural-audit"] > 0 },
 	})
+	// C03 / C15 (sequential, scripted): the loop body of a traversal rewrites a key that has not
+	// been visited yet - with a shorter, value-dependent lifetime - and moves the clock onto the new
+	// deadline; all keys sit in two bucket chains, so the traversal has usually snapshotted the
+	// replaced node already. Whatever it yields for that key afterwards must be unexpired, and a key
+	// that was only rewritten must still be yielded.
+	rewriteScript := func(r *simrt.Rng, cfg *Cfg) []Op {
+		long := int64(1)<<33 + int64(r.Intn(1<<20))
+		short := int64(10 + r.Intn(100000))
+		cfg.Bound, cfg.Max, cfg.Weights = "none", 0, nil
+		cfg.Refresh = "none"
+		cfg.Expiry, cfg.ExpD = "custom", long
+		cfg.ExpTbl = [3][]int64{{long, short}, {long, short}, nil}
+		if r.Intn(4) == 0 {
+			cfg.ExpTbl[2] = []int64{0, long}
+		}
+		cfg.HashMode = 1
+		cfg.Keys = 3 + r.Intn(6)
+		id := 32
+		val := func(k int, wantShort bool) int {
+			id += 32
+			v := id
+			if ((k*7+v)%2 == 1) != wantShort {
+				v++
+			}
+			return v
+		}
+		var ops []Op
+		for k := 0; k < cfg.Keys; k++ {
+			ops = append(ops, Op{Kind: "set", K: k, V: val(k, false)})
+		}
+		for round := 0; round < 1+r.Intn(3); round++ {
+			k := r.Intn(cfg.Keys + 1)
+			it := Op{Kind: []string{"all", "all", "values", "keys"}[r.Intn(4)], K: k, V: val(k, r.Intn(4) != 0)}
+			switch r.Intn(4) {
+			case 0:
+			case 1:
+				it.D2 = short - 1
+			default:
+				it.D2 = short + int64(r.Intn(3))
+			}
+			if r.Intn(5) == 0 {
+				it.D = int64(1 + r.Intn(cfg.Keys))
+			}
+			ops = append(ops, it)
+			if r.Intn(2) == 0 {
+				ops = append(ops, Op{Kind: "set", K: r.Intn(cfg.Keys), V: val(0, false)})
+			}
+		}
+		return ops
+	}
+	for _, id := range []string{"C03", "C15"} {
+		Props[id].Engines = append(Props[id].Engines, &seqEngine{
+			profile:    Profile{Prop: id, Executor: []string{"sync"}, ForceExp: true, NoRef: true, Keys: [2]int{3, 8}},
+			script:     rewriteScript,
+			nontrivial: func(o *SeqOutcome) bool { return o.Probes["iterator-loop-body-wrote"] > 0 },
+		})
+	}
 }
